@@ -315,22 +315,6 @@ Section Parse.
       clear_defaults ocs' s' r'
     end.
 
-  (* commands along Active pointers starting at the root *)
-  Fixpoint active_chain (fuel : nat) (active : list (list nat * nat)) (c : command) (path : list nat)
-    : list (list nat * command) :=
-    match fuel with
-    | O => []
-    | S f =>
-      (path, c) ::
-      match get_active active path with
-      | Some i => match nth_error (cmd_subs c) i with
-                  | Some sub => active_chain f active sub (path ++ [i])
-                  | None => []
-                  end
-      | None => []
-      end
-    end.
-
   Definition join_names (names : list str) : str :=
     join (removelast names) (s2l ", ") ++ s2l " and " ++ last names [].
 
